@@ -196,6 +196,25 @@ def rand_case(rng, wrap=None, dups=True, moves=True, first_move=False, nflights=
     return case
 
 
+def late_dup_case(rng):
+    """A long flight in many small segments with exact duplicates captured MUCH later (≥ 64 further new segments of
+    the same direction in between): retransmissions seen again long after the original."""
+    d = rng.choice("cs")
+    recs = [rec(rng.choice((22, 23)), b"\x03\x03", rng.randbytes(rng.randrange(60, 200))) for _ in range(rng.randrange(5, 9))]
+    fl = {"dir": d, "recs": [r.hex() for r in recs], "cuts": []}
+    total = len(flight_bytes(fl))
+    step = rng.choice((3, 4, 5, 8))
+    fl["cuts"] = list(range(step, total, step))
+    other = {"dir": "s" if d == "c" else "c", "recs": [rand_record(rng).hex()], "cuts": []}
+    case = {"flights": [fl, other], "isn": {"c": rng.choice((1000, W - 200)), "s": rng.choice((5000, W - 300))},
+            "moves": [], "dups": []}
+    nseg = len(fl["cuts"]) + 1
+    for _ in range(rng.randrange(1, 4)):
+        src = rng.randrange(0, max(1, nseg - 70))
+        case["dups"].append([src, rng.randrange(64, max(65, nseg - src - 1))])
+    return case
+
+
 # ----------------------------------------------------------------------------- independent TLS sender
 def prf12(secret, label, seed, n):
     seed = label + seed
